@@ -22,7 +22,11 @@ def run(ctx):
         r = C.run_tlc("PackLayout", "MC_PackLayout_%s.cfg" % c, workdir=ctx.work, workers=4, xmx="6g", timeout=1500)
         C.tlc_must_pass(r, "PackLayout " + c)
         ctx.add_mc("PackLayout_" + c, r, required_actions=("AddSegment", "Finalize"))
-    ctx.checker_cmds.append("tlc MC_PackLayout_{raw,lz}_p{2,3}.cfg PackLayout.tla")
+    # interface laws between the whole-archive decoder (FormatOps) and the per-area design modules (System.tla, ASSUME-checked)
+    r = C.run_tlc("System", "System.cfg", workdir=ctx.work, workers=2, xmx="6g", timeout=1500, coverage=False)
+    C.tlc_must_pass(r, "System interface laws")
+    ctx.add_mc("System_interface_laws", r)
+    ctx.checker_cmds.append("tlc MC_PackLayout_{raw,lz}_p{2,3}.cfg PackLayout.tla; tlc System.tla (interface laws L1-L6)")
     results = arch.run_archives(ctx, "all")
     summarize(ctx, results, "all")
 
